@@ -151,6 +151,24 @@ theorem pool_first_byte_opens_a_page (n : Nat) (hn : 0 < n) : (allocate init n).
   simp [more, init]
 example : (allocate init 0).2 = ⟨0, 0⟩ := by decide
 
+private theorem run_allocs_from (sizes : List Nat) (h0 : Hist) :
+    ∃ h, h0.run (sizes.map Op.alloc) = some h ∧ h.live.length = h0.live.length + sizes.length ∧ h.copies = h0.copies := by
+  induction sizes generalizing h0 with
+  | nil => exact ⟨h0, rfl, by simp, rfl⟩
+  | cons n ns ih =>
+    obtain ⟨h, hr, hl, hc⟩ := ih { h0 with pool := (allocate h0.pool n).1, live := h0.live ++ [⟨(allocate h0.pool n).2, n⟩] }
+    refine ⟨h, ?_, ?_, ?_⟩
+    · simpa [Hist.run, Hist.step] using hr
+    · simp only [List.length_append, List.length_cons, List.length_nil] at hl ⊢; omega
+    · simpa using hc
+/-- the way every tool uses the pool (Allocate only: one block per stored answer / word): any sequence of sizes is served, one live
+block per request, no two sharing a byte, all inside their pages, and nothing is ever copied -/
+theorem pool_allocate_only (sizes : List Nat) :
+    ∃ h, Hist.init.run (sizes.map Op.alloc) = some h ∧ h.live.length = sizes.length ∧ h.live.Pairwise disjoint ∧
+      (∀ l ∈ h.live, inPage h.pool l.addr l.size) ∧ h.copies = [] := by
+  obtain ⟨h, hr, hl, hc⟩ := run_allocs_from sizes Hist.init
+  exact ⟨h, hr, by simpa [Hist.init] using hl, PV.Lemmas.Pool.run_live_disjoint _ h hr, PV.Lemmas.Pool.run_live_in_page _ h hr, by simpa [Hist.init] using hc⟩
+
 -- non-vacuity: a history with an in-place Continue, a shrinking one, a moving one (copy of 100 bytes from page 2 to page 3) and four pages
 example : (Hist.init.run [.alloc 5, .alloc 0, .cont 3, .cont (-2), .alloc 100, .cont 40, .alloc 1]).map
     (fun h => (h.pool, h.live.map (fun l => (l.addr.page, l.addr.off, l.size)), h.copies.map (fun c => (c.src.page, c.src.off, c.dst.page, c.len)))) =
